@@ -98,6 +98,28 @@ CHECKS = {
                       "are reported as a statistic only (not observable behaviour)",
         "assumptions": ["all FORMS/SYNTAX/PAIRS entries are valid TypeScript 5.x"],
     },
+    "C07": {
+        "engines": NATIVE,
+        "level": "exploration",
+        "rule": "48 await-position programs (one or more `await order()` inside try / catch / finally with pending return, throw, "
+                "break, continue; loops; for-of over arrays and generators; methods using this/super after the await; constructors' "
+                "callees; nested async calls 2-4 deep; destructuring defaults; template literals; arguments; conditional and logical "
+                "operands; compound assignment; switch; closures capturing block-scoped variables across the await; error responses) "
+                "and 11 programs with several host promises outstanding, each run under 10-36 host policies (immediate answers, "
+                "answers by a promise settled later, alternating, 1-3 spurious steps, oldest/newest-first, batched and shuffled "
+                "settlement, collect() after every host action, GC thresholds 0/1/3). A run is non-trivial when the interpreter "
+                "suspended to the host at least once; (program, policy) pairs are distinct by construction",
+        "exhaustive": "every await-position class of the catalogue x the enumerated policies",
+        "floor": {"quick": 400, "thorough": 800},
+        "technique": "runtime monitoring: metamorphic oracle (in-program synchronous stand-in vs real host suspension under many host "
+                     "schedules) plus the H1 stale-handle hook",
+        "level_text": "The program's result and log must equal those of the same program with a synchronous stand-in for order(), "
+                      "for every policy; race winners are excluded from the comparison because the language makes them "
+                      "schedule-dependent.",
+        "level_note": "tsrun's async model is blocking by design (order() suspends the whole VM); ES microtask ordering is not asserted, "
+                      "concurrent programs write to disjoint slots and sort their logs",
+        "assumptions": ["the stand-in reproduces the host's responses (k*2, error string 'TypeError: msg') exactly"],
+    },
     "C09": {
         "engines": NATIVE,
         "level": "exploration",
